@@ -2,6 +2,7 @@ import JediModel.Gen.C06
 import JediModel.Lemmas.Refactor
 import JediModel.Lemmas.ExtractIO
 import JediModel.Lemmas.NonExtractable
+import JediModel.Lemmas.ExtractOut
 /-! # C06 — Extract / inline keep the program valid and equivalent
 
 Property theorems only.  What is a theorem here: the shape of `inline`'s outcome, the
@@ -360,6 +361,128 @@ theorem extract_inputs_source_shape :
   decide
 
 end ExtractInputs
+
+/-! ## extract_function: which names bound by a statement selection are handed back
+
+`_find_needed_output_variables` over `_find_non_global_names` (model `ExtractOut.needed`; the shape of the walk is read
+from the source by the translator: `Gen.C06.nonGlobalSkipsAttributeTrailer`, `Gen.C06.nonGlobalPrunesScopeBody`).
+The specification `ExtractOut.readsLater` does not look at the code: the names READ by the statements behind the
+selection at any depth, the bodies of nested functions and lambdas included (a closure reads the variable of the
+enclosing function when it is called).  What is proved: every candidate that is read later is handed back, nothing
+else is, none twice; a walk that leaves the body of a nested function out is not complete (kernel-checked). -/
+section ExtractOutputs
+open JediModel.ExtractOut
+
+/-- the walk of the source, as translated -/
+abbrev srcWalk : Walk := ⟨Gen.C06.nonGlobalSkipsAttributeTrailer, Gen.C06.nonGlobalPrunesScopeBody⟩
+
+/-- the translator found the walk that passes over attribute names and enters every body, and the loop / the
+expression that use it (a source edit that prunes the walk or changes the loop makes the translator or this fail) -/
+theorem needed_outputs_source_shape :
+    srcWalk = fullWalk ∧
+    Gen.C06.neededOutputsWalk = "_find_non_global_names([node])" ∧
+    Gen.C06.neededOutputsCondition = "not name.is_definition() and name.value in return_variables" ∧
+    Gen.C06.returnVariablesExpression =
+      "list(_find_needed_output_variables(context, nodes[0].parent, nodes[-1].end_pos, return_variables)) or [return_variables[-1]] if return_variables else []" :=
+  ⟨by decide, rfl, rfl, rfl⟩
+
+/-- Completeness, general form: for EVERY walk that enters the bodies of nested functions (and passes over attribute
+names), a name the selection binds that is read anywhere behind the selection - directly, in a default argument, or
+from the body of a closure - is handed back -/
+theorem needed_outputs_complete_of_full_walk (w : Walk) (h1 : w.pruneScopeBody = false) (h2 : w.skipAttr = true)
+    (sibs : List Sibling) (rv : List String) (v : String) (hc : v ∈ rv) (hr : v ∈ readsLater sibs) :
+    v ∈ needed w sibs rv := by
+  have hw : w = fullWalk := by
+    cases w; simp only [fullWalk] at *; simp [h1, h2]
+  subst hw
+  rw [needed_eq]
+  refine fold_complete _ _ v hc ?_
+  rw [← mem_readsOf, readsOf_laterNames_full]
+  exact hr
+
+/-- Completeness of the source (FULL statement) -/
+theorem needed_outputs_complete (sibs : List Sibling) (rv : List String) (v : String) (hc : v ∈ rv)
+    (hr : v ∈ readsLater sibs) : v ∈ needed srcWalk sibs rv :=
+  needed_outputs_complete_of_full_walk srcWalk (by decide) (by decide) sibs rv v hc hr
+
+/-- hypotheses satisfiable, non-trivially: `lo = ..; hi = ..` selected, then `shift = lambda v: v - lo` and
+`return hi`: both are handed back, `lo` first -/
+example : needed srcWalk
+    [⟨true, .node (.name "lo" true (.leaf (.leaf .done))) .done⟩,
+     ⟨true, .node (.name "hi" true (.leaf (.leaf .done))) .done⟩,
+     ⟨false, .node (.name "shift" true (.leaf (.scope (.leaf (.name "v" true (.leaf .done)))
+        (.node (.name "v" false (.leaf (.name "lo" false .done))) .done) .done))) .done⟩,
+     ⟨false, .node (.leaf (.name "hi" false .done)) .done⟩]
+    ["lo", "hi"] = ["lo", "hi"] := by decide
+
+/-- Soundness: what is handed back is a candidate, and it is read behind the selection -/
+theorem needed_outputs_sound (sibs : List Sibling) (rv : List String) (v : String)
+    (h : v ∈ needed srcWalk sibs rv) : v ∈ rv ∧ v ∈ readsLater sibs := by
+  have hw : srcWalk = fullWalk := needed_outputs_source_shape.1
+  rw [hw, needed_eq] at h
+  rcases fold_origin _ _ v h with h | ⟨h1, h2⟩
+  · cases h
+  · exact ⟨h1, by rw [← readsOf_laterNames_full, mem_readsOf]; exact h2⟩
+
+example : ∃ v, v ∈ needed srcWalk [⟨false, .name "b" false .done⟩] ["a", "b"] := ⟨"b", by decide⟩
+
+/-- no name is handed back twice, whatever the walk and however often it is bound and read -/
+theorem needed_outputs_nodup (w : Walk) (sibs : List Sibling) (rv : List String) : (needed w sibs rv).Nodup := by
+  rw [needed_eq]
+  exact (fold_inv _ ⟨rv, []⟩ ⟨List.nodup_nil, by simp⟩).1
+
+example : needed srcWalk [⟨false, .name "b" false (.name "b" false .done)⟩] ["b", "b"] = ["b"] := by decide
+
+/-- the expression in `extract_function`: the returned names are candidates; when there are candidates something is
+returned (the last bound name when none is read later); every candidate that is read later is among them -/
+theorem return_variables_spec (sibs : List Sibling) (rv : List String) :
+    (∀ v ∈ returnVariables srcWalk sibs rv, v ∈ rv) ∧
+    (rv ≠ [] → returnVariables srcWalk sibs rv ≠ []) ∧
+    (∀ v ∈ rv, v ∈ readsLater sibs → v ∈ returnVariables srcWalk sibs rv) := by
+  unfold returnVariables
+  cases hl : rv.getLast? with
+  | none =>
+    have : rv = [] := List.getLast?_eq_none_iff.mp hl
+    subst this
+    simp
+  | some last =>
+    have hlast : last ∈ rv := List.mem_of_getLast? hl
+    cases hn : needed srcWalk sibs rv with
+    | nil =>
+      refine ⟨by simpa using hlast, by simp, ?_⟩
+      intro v hv hr
+      have := needed_outputs_complete sibs rv v hv hr
+      rw [hn] at this
+      cases this
+    | cons a l =>
+      refine ⟨?_, by simp, ?_⟩
+      · intro v hv
+        exact (needed_outputs_sound sibs rv v (by rw [hn]; exact hv)).1
+      · intro v hv hr
+        have := needed_outputs_complete sibs rv v hv hr
+        rw [hn] at this
+        exact this
+
+example : returnVariables srcWalk [⟨false, .leaf .done⟩] ["a", "b"] = ["b"] := by decide
+
+/-- kernel-checked counter-witness for a walk that is NOT the source (seeded defect, round 4: the last child of a
+funcdef / lambdef is left out "because it is a scope of its own"): `lo = a - 1; hi = a * 3` selected, then
+`shift = lambda v: v - lo` and `return [...], hi`.  `lo` is read behind the selection (specification) and is not
+handed back; the default argument of a nested function and a direct read are still seen -/
+theorem pruned_walk_misses_closure_read :
+    let later : List Sibling :=
+      [⟨true, .node (.name "lo" true (.leaf (.leaf .done))) .done⟩,
+       ⟨true, .node (.name "hi" true (.leaf (.leaf .done))) .done⟩,
+       ⟨false, .node (.name "shift" true (.leaf (.scope (.leaf (.name "v" true (.leaf .done)))
+          (.node (.name "v" false (.leaf (.name "lo" false .done))) .done) .done))) .done⟩,
+       ⟨false, .node (.leaf (.name "hi" false .done)) .done⟩]
+    "lo" ∈ readsLater later ∧
+    needed prunedWalk later ["lo", "hi"] = ["hi"] ∧ returnVariables prunedWalk later ["lo", "hi"] = ["hi"] ∧
+    needed fullWalk later ["lo", "hi"] = ["lo", "hi"] ∧
+    needed prunedWalk [⟨false, .scope (.name "g" true (.name "x" true (.leaf (.name "lo" false .done))))
+      (.name "x" false .done) .done⟩] ["lo"] = ["lo"] := by decide
+
+end ExtractOutputs
 
 /-! ## extract_function: which statement selections are refused
 
